@@ -117,7 +117,6 @@ MUTANTS = [
     ('revert_range_labels', 'hotxlfp/parser.py', '        start_cell.label = to_label(start_cell.row, start_cell.col)\n        end_cell.label = to_label(end_cell.row, end_cell.col)\n', '', ['C10']),
     ('cache_by_formula_text', 'hotxlfp/parser.py', "        result = None\n        error = None\n        try:",
      "        cache = self.__dict__.setdefault('_cache', {})\n        if expression in cache:\n            return dict(cache[expression])\n        result = None\n        error = None\n        try:", ['C02']),
-    ('cache_by_formula_text_store', None, None, None, []),  # placeholder (the store half is below)
     ('class_level_bindings', 'hotxlfp/parser.py', "        self.variables = {'TRUE': True, 'FALSE': False, 'NULL': None}\n        self.functions = {}\n",
      "        self.variables = Parser._shared_variables\n        self.functions = Parser._shared_functions\n", ['C03']),
     ('large_sorts_in_place', 'hotxlfp/formulas/statistical.py', "    return sorted(utils.inumbers(arr, try_parse=True, text_is_zero=True))[-n]",
@@ -131,16 +130,13 @@ MUTANTS = [
     ('emit_iterates_live_list', 'hotxlfp/tinyemitter.py', "listeners = self._e[name][:]", "listeners = self._e[name]", ['C20']),
     ('off_by_identity', 'hotxlfp/tinyemitter.py', "if event.fn != callback and", "if event.fn is not callback and", ['C20']),
     ('off_ignores_once_wrappers', 'hotxlfp/tinyemitter.py', "if event.fn != callback and ((not hasattr(event.fn, '_')) or event.fn._ != callback):", "if event.fn != callback:", ['C20']),
-    ('once_removes_after_call', 'hotxlfp/tinyemitter.py', "            self.off(name, onetime_listener)\n            callback(*args, **ctx)", "            callback(*args, **ctx)\n            self.off(name, onetime_listener)", ['C20']),
     ('debug_returns_raw_message', 'hotxlfp/parser.py', "            if self.debug:\n                traceback.print_exc()\n            error = str(formulaserror.from_message(e))", "            if self.debug:\n                traceback.print_exc()\n                return {'result': None, 'error': str(e)}\n            error = str(formulaserror.from_message(e))", ['C02', 'C01']),
-    ('from_message_default_raw', 'hotxlfp/formulas/error.py', "    return errdict.get(message, ERROR)", "    return errdict.get(message, XLError(message))", ['C01']),
+    ('from_message_default_raw', 'hotxlfp/formulas/error.py', "    return errdict.get(message, ERROR)", "    return errdict.get(message, XLError(message) if message.startswith('#') else ERROR)", ['C01']),
     ('module_scratch_race', 'hotxlfp/formulas/operators.py', "    lval, ltype = value_and_type(lval)\n    rval, rtype = value_and_type(rval)\n    conversions = IMPLICIT_DATA_TYPE_CONVERSIONS[op]",
      "    global _scratch\n    _scratch = (lval, rval)\n    lval, ltype = value_and_type(_scratch[0])\n    rval, rtype = value_and_type(_scratch[1])\n    conversions = IMPLICIT_DATA_TYPE_CONVERSIONS[op]", ['C03']),
     ('busy_flag_without_finally', 'hotxlfp/parser.py', "        result = None\n        error = None\n        try:\n            if expression == '':\n                result = ''\n            else:\n                result = self.parser.parse(expression)",
      "        result = None\n        error = None\n        if self.__dict__.get('_busy'):\n            return {'result': None, 'error': '#ERROR!'}\n        try:\n            if expression == '':\n                result = ''\n            else:\n                self._busy = True\n                result = self.parser.parse(expression)\n                self._busy = False", ['C02', 'C03']),
-    ('listener_ctx_shared_default', 'hotxlfp/tinyemitter.py', "    def on(self, name, callback, ctx=None):\n        if ctx is None:\n            ctx = {}", "    def on(self, name, callback, ctx=None):\n        if not ctx:\n            ctx = Emitter._default_ctx", ['C20']),
     ('range_rows_only_normalised', 'hotxlfp/parser.py', "        if start_col.index <= end_col.index:", "        if True:", ['C10']),
-    ('once_context_dropped', 'hotxlfp/tinyemitter.py', "        return self.on(name, onetime_listener, ctx)", "        return self.on(name, onetime_listener)", ['C20']),
 ]
 
 EXTRA_EDITS = {
@@ -149,7 +145,6 @@ EXTRA_EDITS = {
     'class_level_bindings': [('hotxlfp/parser.py', "class Parser(Emitter):\n", "class Parser(Emitter):\n    _shared_variables = {'TRUE': True, 'FALSE': False, 'NULL': None}\n    _shared_functions = {}\n")],
     'sticky_error_flag': [('hotxlfp/parser.py', "        result = None\n        error = None\n        try:", "        result = None\n        error = None\n        if self.__dict__.pop('_failed', False):\n            return {'result': None, 'error': '#DIV/0!'}\n        try:")],
     'busy_flag_without_finally': [('hotxlfp/parser.py', "        except Exception as e:\n            if self.debug:", "        except Exception as e:\n            self._busy = False\n            if self.debug:")],
-    'listener_ctx_shared_default': [('hotxlfp/tinyemitter.py', "class Emitter(object):\n", "class Emitter(object):\n    _default_ctx = {}\n")],
 }
 
 
